@@ -388,7 +388,12 @@ def switchKey (P : Parsers) (cases : List KeyCase) (deflt : List String) (costPf
       | some none => .error .unparsable
       | some (some x) => .ok (.field k x)
   | none =>
-    if deflt = ["setCostValue"] then costValue P costPfx fns k v else .error .unknown
+    if deflt = ["setCostValue"] ∨ deflt = ["return", "setCostValue"] then costValue P costPfx fns k v else .error .unknown
+
+/-- `default: return x.setCostValue(key, value)` (faucetsc, vestingsc) leaves the whole `for … range` loop — also when
+the cost was set successfully: the keys the runtime would have enumerated later are silently dropped. -/
+def switchStops (cases : List KeyCase) (deflt : List String) (k : Str) : Bool :=
+  (cases.find? fun c => S c.name = k).isNone && deflt.head? = some "return"
 
 open Generated.C48 in
 def faucetKey (P : Parsers) (k v : Str) : Except KeyErr Write :=
@@ -426,13 +431,14 @@ def globalsKey (P : Parsers) (k v : Str) : Except KeyErr Unit :=
 
 /-! ## the update loops: first error in iteration order, else all writes applied -/
 
-/-- `for key, value := range m { if err := set(key, value); err != nil { return err } }` over the enumeration `o`. -/
-def applyAll (keyf : Str → Str → Except KeyErr Write) : SMap Str → Cfg → Except (Str × KeyErr) Cfg
+/-- `for key, value := range m { if err := set(key, value); err != nil { return err } }` over the enumeration `o`.
+`stops k`: the accepted key `k` ends the loop (see `switchStops`). -/
+def applyAll (keyf : Str → Str → Except KeyErr Write) (stops : Str → Bool) : SMap Str → Cfg → Except (Str × KeyErr) Cfg
   | [], c => .ok c
   | (k, v) :: r, c =>
     match keyf k v with
     | .error e => .error (k, e)
-    | .ok w => applyAll keyf r (c.apply w)
+    | .ok w => if stops k then .ok (c.apply w) else applyAll keyf stops r (c.apply w)
 
 /-- all offending keys of a change map (what the first error can be, over all iteration orders) -/
 def badKeys (keyf : Str → Str → Except KeyErr Write) (m : SMap Str) : List (Str × KeyErr) :=
@@ -539,6 +545,12 @@ def Contract.keyf (P : Parsers) : Contract → Str → Str → Except KeyErr Wri
   | .vesting => vestingKey P
   | .zcn => zcnKey P
 
+def Contract.stops : Contract → Str → Bool
+  | .faucet => switchStops Generated.C48.faucet Generated.C48.faucetDefault
+  | .vesting => switchStops Generated.C48.vesting Generated.C48.vestingDefault
+  | .zcn => switchStops Generated.C48.zcn Generated.C48.zcnDefault
+  | _ => fun _ => false
+
 def Contract.checks : Contract → Cfg → List Bool
   | .miner => minerChecks
   | .storage => storageChecks
@@ -586,7 +598,7 @@ def update (P : Parsers) (ct : Contract) (validates : Bool) (ord : MapOrder) (ca
   else match input with
     | none => (.decode, c)
     | some m =>
-      match applyAll (ct.keyf P) (ord m) c with
+      match applyAll (ct.keyf P) ct.stops (ord m) c with
       | .error (k, e) => (.key k e, c)
       | .ok c' =>
         if validates then
@@ -627,7 +639,7 @@ def updateGlobals (P : Parsers) (ord : MapOrder) (caller : Str) (input : Input) 
 node-local configuration value (`viper`). `local` is that node-local value. -/
 def globalInForce (P : Parsers) (g : Globals) (name : Str) (ct : CT) (loc : Str) : Str :=
   match g.fields.find name with
-  | none => loc
+  | none => if ct = .strings then [] else loc   -- `GetStrings` splits `Fields[key]` (the empty string when absent) and never falls back
   | some v => match stringToInterfaceOk P ct v with
     | .ok () => v
     | .error _ => loc
@@ -650,14 +662,14 @@ def storageUpdate (P : Parsers) (postDemeter : Bool) (ord : MapOrder) (caller : 
       if m.isEmpty then (.ok false, s)
       else
         let st := mergeStaged s.staged m
-        match applyAll (storageKey P) (ord st) s.conf with
+        match applyAll (storageKey P) (fun _ => false) (ord st) s.conf with
         | .error (k, e) => (.key k e, s)
         | .ok c' => (.ok false, { conf := if postDemeter then c' else s.conf, staged := st })
 
 /-- `commitSettingChanges`: any caller. -/
 def storageCommit (P : Parsers) (validates : Bool) (ord : MapOrder) (s : Storage) : Res × Storage :=
   if s.staged.isEmpty then (.ok false, s)
-  else match applyAll (storageKey P) (ord s.staged) s.conf with
+  else match applyAll (storageKey P) (fun _ => false) (ord s.staged) s.conf with
     | .error (k, e) => (.key k e, s)
     | .ok c' =>
       if validates then
